@@ -302,8 +302,8 @@ func PrintProto(f *PFile) string {
 		up := strings.ToUpper(e)
 		fmt.Fprintf(&sb, "\nenum %s {\n  %s_UNSPECIFIED = 0;\n  %s_ONE = 1;\n}\n", e, up, up)
 	}
-	if len(f.Uses) > 0 {
-		fmt.Fprintf(&sb, "\nmessage %sHolder {\n", strings.ToUpper(f.Base[:1])+f.Base[1:])
+	if f.Holder != "" {
+		fmt.Fprintf(&sb, "\nmessage %s {\n", f.Holder)
 		for i, u := range f.Uses {
 			fmt.Fprintf(&sb, "  %s u%d = %d;\n", u, i+1, i+1)
 		}
